@@ -58,6 +58,18 @@ func c13Menu() map[string]c13Up {
 		"R": {Name: "R", Backend: "*port", User: "ur@users.test", YAML: func(e map[string]string) string {
 			return svc("svcr", `^svc-(\d+)\.sso\.test$`, "127.0.0.1:$1", "rewrite", addr("ur@users.test"), "")
 		}},
+		// a rewrite whose pattern is NOT anchored at its start (a suffix pattern)
+		"U": {Name: "U", Backend: "u", User: "uu@users.test", YAML: func(e map[string]string) string {
+			return svc("svcu", `\.admin\.sso\.test$`, e["u"], "rewrite", addr("uu@users.test"), "")
+		}},
+		// a catch-all rewrite, matching host names in any case
+		"W": {Name: "W", Backend: "w", User: "uw@users.test", YAML: func(e map[string]string) string {
+			return svc("svcw", `^(?i)(.*)\.sso\.test$`, e["w"], "rewrite", addr("uw@users.test"), "")
+		}},
+		// a simple route restricted by a group rule only (group rules are not re-checked on every request)
+		"G": {Name: "G", Backend: "g", User: "ug@users.test", YAML: func(e map[string]string) string {
+			return svc("svcg", "g.sso.test", e["g"], "", "      allowed_groups:\n        - admins\n", "")
+		}},
 		// an overlapping rewrite with a fixed backend
 		"S": {Name: "S", Backend: "s", User: "us@users.test", YAML: func(e map[string]string) string {
 			return svc("svcs", `^svc-.*\.sso\.test$`, e["s"], "rewrite", addr("us@users.test"), "")
@@ -76,7 +88,7 @@ func c13Run(c *fw.Ctx) {
 	vtime.SetManual(harness.T0)
 	defer vtime.SetReal()
 	menu := c13Menu()
-	sets := [][]string{{"A", "B"}, {"A", "C"}, {"A", "R", "S"}, {"S", "R", "A"}, {"B", "S"}, {"R", "B", "A"}, {"S", "T"}, {"T", "R", "S"}}
+	sets := [][]string{{"A", "B"}, {"A", "C"}, {"A", "R", "S"}, {"S", "R", "A"}, {"B", "S"}, {"R", "B", "A"}, {"S", "T"}, {"T", "R", "S"}, {"U", "W"}, {"W", "U"}, {"G", "W"}}
 	if c.Thorough() {
 		sets = append(sets, []string{"A", "B", "C"}, []string{"C", "R"}, []string{"S", "A", "B"}, []string{"R", "S", "C"}, []string{"B", "R", "S"})
 	}
@@ -92,7 +104,7 @@ func c13Run(c *fw.Ctx) {
 			return e
 		}
 		// backends first (their addresses go into the document)
-		names := []string{"a", "b", "c", "s", "t", "p"}
+		names := []string{"a", "b", "c", "s", "t", "p", "u", "w", "g"}
 		// ProxyOpts substitutes {{backend:X}}; build the document with those placeholders
 		addrs := map[string]string{}
 		for _, n := range names {
@@ -121,7 +133,8 @@ func c13Run(c *fw.Ctx) {
 		e := ce.e
 		port := e.Backends["p"].Addr()[strings.LastIndex(e.Backends["p"].Addr(), ":")+1:]
 		hosts := []string{"a.sso.test", "A.SSO.TEST", "a.sso.test:443", "b.sso.test", "c.sso.test:8443", "c.sso.test", "svc-" + port + ".sso.test", "svc-x.sso.test", "svc-static.sso.test", "SVC-" + port + ".sso.test", "xsvc-" + port + ".sso.test.evil", "nomatch.test", "",
-			"svc-" + port + ".sso.test:8443", "svc-static.sso.test:8080", "127.0.0.1:" + port, "b.sso.test:80"}
+			"svc-" + port + ".sso.test:8443", "svc-static.sso.test:8080", "127.0.0.1:" + port, "b.sso.test:80",
+			"x.admin.sso.test", "g.sso.test", "G.sso.test", "other.sso.test"}
 		host := hosts[x.Choose("host", len(hosts))]
 		// who asks: nobody (no cookie), or the user of upstream k with a cookie minted for host m
 		who := x.Choose("cookie-user", len(ce.ups)+1)
@@ -130,7 +143,7 @@ func c13Run(c *fw.Ctx) {
 			// the cookie was obtained for this host, for another configured host, or for ANOTHER host that
 			// matches the same rewrite pattern (a sibling)
 			portS := e.Backends["s"].Addr()[strings.LastIndex(e.Backends["s"].Addr(), ":")+1:]
-			bh := []string{host, "a.sso.test", "b.sso.test", "svc-" + portS + ".sso.test", "svc-x.sso.test", "svc-static.sso.test"}
+			bh := []string{host, "a.sso.test", "b.sso.test", "svc-" + portS + ".sso.test", "svc-x.sso.test", "svc-static.sso.test", "G.sso.test", "other.sso.test"}
 			boundTo = bh[x.Choose("cookie-bound-host", len(bh))]
 		}
 		// ---- reference router over the resolved order ----
@@ -194,6 +207,13 @@ func c13Run(c *fw.Ctx) {
 			xfh = boundTo
 			hdr.Set("X-Forwarded-Host", xfh)
 		}
+		// optionally the same cookie is first presented where it belongs (anything that remembers an accepted
+		// cookie must not carry the verdict over to another host)
+		if who > 0 && boundTo != host && boundTo != "" && x.Choose("cookie-first-used-on-its-own-host", 2) == 1 {
+			wreq := harness.NewRequest("GET", "/page", "placeholder.test", hdr.Clone(), nil)
+			wreq.Host = boundTo
+			e.Do(wreq)
+		}
 		req := harness.NewRequest("GET", "/page", "placeholder.test", hdr, nil)
 		req.Host = host
 		resp := e.Do(req)
@@ -239,7 +259,11 @@ func c13Run(c *fw.Ctx) {
 				viol("wrong-backend/"+want.Service, fmt.Sprintf("Host %q belongs to %s (backend %s) but backend %s was reached", host, want.Service, wantBackend, h.Backend))
 			}
 		}
-		admissible := sess != nil && sess.Email == wantUp.User && sess.AuthorizedUpstream == host && sess.ProviderSlug == wantSlug
+		// an upstream restricted by a group rule only re-checks nothing about the user on each request (group
+		// membership is confirmed at login and at revalidation), so there any session bound to this very host
+		// is in order, whoever it names — a state that can only arise through that upstream's own login
+		groupOnly := wantUp.Name == "G"
+		admissible := sess != nil && (sess.Email == wantUp.User || groupOnly) && sess.AuthorizedUpstream == host && sess.ProviderSlug == wantSlug
 		if lenient && sess != nil && sess.Email == wantUp.User && strings.EqualFold(strings.Split(sess.AuthorizedUpstream, ":")[0], strings.Split(host, ":")[0]) {
 			admissible = true
 		}
@@ -247,13 +271,16 @@ func c13Run(c *fw.Ctx) {
 			switch {
 			case sess == nil:
 				viol("served-without-session/"+want.Service, "upstream reached without any session")
-			case sess.Email != wantUp.User:
+			case sess.Email != wantUp.User && !(groupOnly && admissible):
 				viol("served-under-foreign-policy/"+want.Service, fmt.Sprintf("user %s is admitted only by another upstream's rules but was served by %s", sess.Email, want.Service))
 			case !admissible:
 				viol("session-accepted-on-other-host/"+want.Service, fmt.Sprintf("a session bound to %q (slug %s) was accepted on host %q of %s (slug %s)", sess.AuthorizedUpstream, sess.ProviderSlug, host, want.Service, wantSlug))
 			default:
 				c.Res.Count("positive_served_by_right_upstream", 1)
 			}
+		} else if admissible && !lenient && resp.Status == 502 {
+			// routed to the right upstream, whose rewritten backend address does not exist
+			c.Res.Count("routed_to_an_unreachable_rewrite_target", 1)
 		} else if admissible && !lenient {
 			viol("own-session-refused/"+want.Service, fmt.Sprintf("a valid session of %s for host %q was answered %d", want.Service, host, resp.Status))
 		}
@@ -286,8 +313,8 @@ func init() {
 	fw.Register(&fw.Check{
 		ID:    "C13",
 		Level: "exploration",
-		Rule: "full product over upstream sets of 2-3 routes drawn from {simple a.sso.test, simple b.sso.test with provider_slug, simple with port, rewrite ^svc-(\\d+)\\.sso\\.test$ -> 127.0.0.1:$1, overlapping rewrite with a fixed backend, simple host that also matches that rewrite} in several orders, loaded through YAML -> SetUpstreamConfigs -> proxy.New with one recording backend per target; " +
-			"Host values {exact, upper-case, with port, port-qualified route with and without port, matching both rewrites, matching only the second, upper-case rewrite host, look-alike, matching none, empty} x cookie {none, user of each upstream} x cookie host binding {this host, two simple hosts, a sibling host of the same rewrite pattern, two more} x cookie slug {own, target's} x X-Forwarded-Host {absent, the host the cookie is bound to}; " +
+		Rule: "full product over upstream sets of 2-3 routes drawn from {simple a.sso.test, simple b.sso.test with provider_slug, simple with port, rewrite ^svc-(\\d+)\\.sso\\.test$ -> 127.0.0.1:$1, overlapping rewrite with a fixed backend, simple host that also matches that rewrite, a rewrite not anchored at its start, a case-insensitive catch-all rewrite, a simple route with a group rule only} in several orders, loaded through YAML -> SetUpstreamConfigs -> proxy.New with one recording backend per target; " +
+			"Host values {exact, upper-case, with port, port-qualified route with and without port, matching both rewrites, matching only the second, upper-case rewrite host, look-alike, matching none, empty} x cookie {none, user of each upstream} x cookie host binding {this host, two simple hosts, a sibling host of the same rewrite pattern, two more} x cookie slug {own, target's} x X-Forwarded-Host {absent, the host the cookie is bound to} x {the cookie was / was not first presented on the host it is bound to}; " +
 			"oracle = reference router over the order in which the configuration resolved the upstreams (exact simple match first, else first matching rewrite; backend = substitution), 421 and no backend for no route, policy/cookie binding/sign-in provider of that upstream only, a session for another host never accepted; " +
 			"distinct_nontrivial = distinct (upstream set, host class, cookie user, status, backends hit)",
 		Assumptions:    []string{"case and port variants of a configured simple host may either route to that upstream or get 421 (the statement says exact match)"},
